@@ -17,6 +17,7 @@ use iggy::messages::send_messages::{Message, Partitioning};
 use iggy::models::permissions::{GlobalPermissions, Permissions, StreamPermissions};
 use iggy::models::user_status::UserStatus;
 use iggy::utils::duration::IggyDuration;
+use iggy::utils::byte_size::IggyByteSize;
 use iggy::utils::expiry::IggyExpiry;
 use iggy::utils::personal_access_token_expiry::PersonalAccessTokenExpiry;
 use iggy::utils::topic_size::MaxTopicSize;
@@ -393,15 +394,17 @@ impl CatWorld {
                 }
                 COp::CreateTopic(st, id, name, parts) => (
                     Some(
+                        // topics created with a client-chosen id also carry non-default settings, so that a
+                        // restart (or an update) that loses or mixes them up is visible
                         c.create_topic(
                             &st.ident(),
                             name,
                             *parts,
-                            CompressionAlgorithm::None,
-                            None,
+                            if id.is_some() { CompressionAlgorithm::Gzip } else { CompressionAlgorithm::None },
+                            if id.is_some() { Some(2) } else { None },
                             *id,
                             IggyExpiry::NeverExpire,
-                            MaxTopicSize::Unlimited,
+                            if id.is_some() { MaxTopicSize::Custom(IggyByteSize::from(4_000_000_000u64)) } else { MaxTopicSize::Unlimited },
                         )
                         .await?
                         .id,
@@ -414,7 +417,13 @@ impl CatWorld {
                 }
                 COp::UpdateTopic(st, t, name, exp) => {
                     let e = if *exp == 0 { IggyExpiry::NeverExpire } else { IggyExpiry::ExpireDuration(IggyDuration::from(*exp)) };
-                    c.update_topic(&st.ident(), &t.ident(), name, CompressionAlgorithm::None, None, e, MaxTopicSize::Unlimited).await?;
+                    // the variant with a finite expiry also changes compression, replication factor and size limit
+                    let (comp, repl, max) = if *exp == 0 {
+                        (CompressionAlgorithm::None, None, MaxTopicSize::Unlimited)
+                    } else {
+                        (CompressionAlgorithm::Gzip, Some(3), MaxTopicSize::Custom(IggyByteSize::from(3_000_000_000u64)))
+                    };
+                    c.update_topic(&st.ident(), &t.ident(), name, comp, repl, e, max).await?;
                     (None, None)
                 }
                 COp::PurgeTopic(st, t) => {
